@@ -1329,8 +1329,30 @@ def c13_run(ctx, scale):
     # frames with hundreds of chunks
     big, _ = vlib.gen_cases("large", ctx.seed * 41 + scale, 2 if ctx.quick else 12)
     base += [(c, b) for c, b in big if len(b) < 600000]
+    def orc(cid, data, impl, model):
+        if cid.startswith("whole/"):
+            return None if vlib.outcome(impl) == "ok" else "the untruncated file does not load: " + vlib.outcome_detail(impl)
+        if vlib.outcome(impl) != "err":
+            return "a truncated file did not fail to load: " + vlib.outcome_detail(impl)
+        return None
+    ncuts = 0
+    def flush(files):
+        # one group of base files at a time bounds the memory of the thorough tier
+        for profile in ("release", "relchk"):
+            sub = Result()
+            compare_batched(sub, files, [], orc, what=f"truncated prefix [{profile}]", load_only=True, outcome_only=True,
+                            batch=100000, profile=profile)
+            for f in sub.oracle_failures + sub.corr_diffs:
+                f["build_profile"] = profile
+            res.merge(sub)
+        for cid, data in files:
+            res._distinct.add(hash(cid))
     files = []
     for cid, b in base:
+        if sum(len(d) for _, d in files) > 400_000_000:
+            ncuts += len(files)
+            flush(files)
+            files = []
         end = end_of_last_frame(b)
         if end is None or end > len(b):
             continue
@@ -1355,23 +1377,10 @@ def c13_run(ctx, scale):
             files.append((f"cut/{cid}@{k}", b[:k]))
         # the complete file and the file cut exactly at the end of the last frame do load
         files.append((f"whole/{cid}", b[:end]))
-    def orc(cid, data, impl, model):
-        if cid.startswith("whole/"):
-            return None if vlib.outcome(impl) == "ok" else "the untruncated file does not load: " + vlib.outcome_detail(impl)
-        if vlib.outcome(impl) != "err":
-            return "a truncated file did not fail to load: " + vlib.outcome_detail(impl)
-        return None
-    for profile in ("release", "relchk"):
-        sub = Result()
-        compare_batched(sub, files, [], orc, what=f"truncated prefix [{profile}]", load_only=True, outcome_only=True,
-                        batch=100000, profile=profile)
-        for f in sub.oracle_failures + sub.corr_diffs:
-            f["build_profile"] = profile
-        res.merge(sub)
-    for cid, data in files:
-        res._distinct.add(hash(cid))
+    ncuts += len(files)
+    flush(files)
     res.distribution["files"] = len(base)
-    res.distribution["cuts"] = len(files) - len(base)
+    res.distribution["cuts"] = ncuts - len(base)
     return res
 
 
